@@ -31,11 +31,11 @@ structure Describes (g : Graph) (nm : Name → LibName) (st : State) : Prop wher
   healthy : ∀ x deps, g.node x = .healthy deps → factoryFor st (nm x) = some (.ast (healthyDecls nm deps))
   faulty : ∀ x deps, g.node x = .faulty deps → factoryFor st (nm x) = some (.ast (faultyDecls nm deps))
   missing : ∀ x, g.node x = .missing →
-    libLookup st.factories (nm x) = none ∧ st.files.lookup (libPath (nm x)) = none
+    libLookup st.factories (nm x) = none ∧ st.files.lookup (fileKey st.dir (libPath (nm x))) = none
   unreadable : ∀ x, g.node x = .unreadable →
-    libLookup st.factories (nm x) = none ∧ st.files.lookup (libPath (nm x)) = some .unreadable
+    libLookup st.factories (nm x) = none ∧ st.files.lookup (fileKey st.dir (libPath (nm x))) = some .unreadable
   malformed : ∀ x, g.node x = .malformed → libLookup st.factories (nm x) = none ∧
-    ∃ t e, st.files.lookup (libPath (nm x)) = some (.text t) ∧ factoryOfText (nm x) t = .error e
+    ∃ t e, st.files.lookup (fileKey st.dir (libPath (nm x))) = some (.text t) ∧ factoryOfText (nm x) t = .error e
 
 /-- loader state and interpreter state correspond -/
 structure Corr (g : Graph) (nm : Name → LibName) (ls : LState) (st : State) : Prop where
@@ -45,7 +45,7 @@ structure Corr (g : Graph) (nm : Name → LibName) (ls : LState) (st : State) : 
   ip : st.inProgress = ls.inProgress.map nm
 
 /-- the error `e` of the model is the one the abstract outcome `o` stands for -/
-def MatchErr (g : Graph) (nm : Name → LibName) (files : List (String × FileEntry)) (o : Outcome) (e : SErr) : Prop :=
+def MatchErr (g : Graph) (nm : Name → LibName) (files : List (String × FileEntry)) (dir : String) (o : Outcome) (e : SErr) : Prop :=
   match o with
   | .ok => False
   | .fuel => True
@@ -53,22 +53,22 @@ def MatchErr (g : Graph) (nm : Name → LibName) (files : List (String × FileEn
   | .notFound => e.1 = .libNotFound
   | .io => e = (.io, none)
   | .fault => e = (.nonProcedure, none)
-  | .syntax => ∃ y t, g.node y = .malformed ∧ files.lookup (libPath (nm y)) = some (.text t) ∧
+  | .syntax => ∃ y t, g.node y = .malformed ∧ files.lookup (fileKey dir (libPath (nm y))) = some (.text t) ∧
       factoryOfText (nm y) t = .error e
 
 /-- the result `r` of the model is what the abstract outcome `o` stands for -/
-def Match (g : Graph) (nm : Name → LibName) (files : List (String × FileEntry)) (o : Outcome)
+def Match (g : Graph) (nm : Name → LibName) (files : List (String × FileEntry)) (dir : String) (o : Outcome)
     (r : Except SErr (List (String × Value))) : Prop :=
   match o with
   | .ok => r = .ok []
-  | o => ∃ e, r = .error e ∧ MatchErr g nm files o e
+  | o => ∃ e, r = .error e ∧ MatchErr g nm files dir o e
 
 theorem Describes.step {g nm st st' roots} (h : Describes g nm st) (s : Step st st' roots) :
     Describes g nm st' := by
   have hff := s.factoryFor_eq
   have hfl := s.base.files
   have keep : ∀ n, libLookup st.factories n = none →
-      (∀ t f, st.files.lookup (libPath n) = some (.text t) → factoryOfText n t ≠ .ok f) →
+      (∀ t f, st.files.lookup (fileKey st.dir (libPath n)) = some (.text t) → factoryOfText n t ≠ .ok f) →
       libLookup st'.factories n = none := by
     intro n hn hno
     cases h' : libLookup st'.factories n with
@@ -80,13 +80,13 @@ theorem Describes.step {g nm st st' roots} (h : Describes g nm st) (s : Step st 
     fun x deps hx => by rw [hff]; exact h.faulty x deps hx, ?_, ?_, ?_⟩
   · intro x hx
     obtain ⟨h1, h2⟩ := h.missing x hx
-    exact ⟨keep _ h1 (fun t f ht => by rw [h2] at ht; cases ht), by rw [hfl]; exact h2⟩
+    exact ⟨keep _ h1 (fun t f ht => by rw [h2] at ht; cases ht), by rw [hfl, s.base.dir]; exact h2⟩
   · intro x hx
     obtain ⟨h1, h2⟩ := h.unreadable x hx
-    exact ⟨keep _ h1 (fun t f ht => by rw [h2] at ht; cases ht), by rw [hfl]; exact h2⟩
+    exact ⟨keep _ h1 (fun t f ht => by rw [h2] at ht; cases ht), by rw [hfl, s.base.dir]; exact h2⟩
   · intro x hx
     obtain ⟨h1, t, e, h2, h3⟩ := h.malformed x hx
-    refine ⟨keep _ h1 (fun t' f ht => ?_), t, e, by rw [hfl]; exact h2, h3⟩
+    refine ⟨keep _ h1 (fun t' f ht => ?_), t, e, by rw [hfl, s.base.dir]; exact h2, h3⟩
     rw [h2] at ht; cases ht
     rw [h3]; intro hc; cases hc
 
@@ -133,7 +133,7 @@ theorem getLibrary_of_factoryFor {k : Nat} {st : State} {n : LibName} {loc : Loc
     | none =>
       rw [h1] at hf
       simp only at hf ⊢
-      cases h2 : st.files.lookup (libPath n) with
+      cases h2 : st.files.lookup (fileKey st.dir (libPath n)) with
       | none => rw [h2] at hf; cases hf
       | some fe =>
         rw [h2] at hf
@@ -153,22 +153,23 @@ theorem getLibrary_of_factoryFor {k : Nat} {st : State} {n : LibName} {loc : Loc
 
 theorem getLibrary_no_factory {k : Nat} {st : State} {n : LibName} {loc : Loc}
     (hi : libLookup st.instances n = none) (hf : libLookup st.factories n = none) :
-    (st.files.lookup (libPath n) = none →
+    (st.files.lookup (fileKey st.dir (libPath n)) = none →
       Interp.getLibrary (k + 1) st n loc = (.error (.libNotFound, loc), st)) ∧
-    (st.files.lookup (libPath n) = some .unreadable →
+    (st.files.lookup (fileKey st.dir (libPath n)) = some .unreadable →
       Interp.getLibrary (k + 1) st n loc = (.error (.io, none), st)) := by
   constructor <;> intro h <;> rw [getLibrary_succ_eq, hi] <;> simp [findFactory, hf, h]
 
 /-! ## moving the correspondence along -/
 
 theorem Describes.congr {g nm} {st st' : State} (h : Describes g nm st)
-    (hf : st'.factories = st.factories) (hfl : st'.files = st.files) : Describes g nm st' := by
-  have hff : ∀ m, factoryFor st' m = factoryFor st m := factoryFor_congr hf hfl
+    (hf : st'.factories = st.factories) (hfl : st'.files = st.files)
+    (hdr : st'.dir = st.dir := by rfl) : Describes g nm st' := by
+  have hff : ∀ m, factoryFor st' m = factoryFor st m := factoryFor_congr hf hfl hdr
   exact ⟨h.inj, fun x d hx => by rw [hff]; exact h.healthy x d hx,
     fun x d hx => by rw [hff]; exact h.faulty x d hx,
-    fun x hx => by rw [hf, hfl]; exact h.missing x hx,
-    fun x hx => by rw [hf, hfl]; exact h.unreadable x hx,
-    fun x hx => by rw [hf, hfl]; exact h.malformed x hx⟩
+    fun x hx => by rw [hf, hfl, hdr]; exact h.missing x hx,
+    fun x hx => by rw [hf, hfl, hdr]; exact h.unreadable x hx,
+    fun x hx => by rw [hf, hfl, hdr]; exact h.malformed x hx⟩
 
 /-- entering the load of `x` -/
 theorem Corr.push {g nm c path} {st : State} (h : Corr g nm ⟨c, path⟩ st) (x : Name) :
@@ -220,32 +221,32 @@ theorem mem_ip_iff {g nm c path} {st : State} (h : Corr g nm ⟨c, path⟩ st) (
 def modelFuel (D fa : Nat) : Nat := fa * (D + 10)
 
 /-- one load with abstract fuel `fa` is simulated by the model with fuel `m` -/
-def SimAt (g : Graph) (nm : Name → LibName) (files : List (String × FileEntry)) (fa m : Nat) : Prop :=
-  ∀ (c path : List Name) (st : State) (x : Name) (loc : Loc), Corr g nm ⟨c, path⟩ st → st.files = files →
+def SimAt (g : Graph) (nm : Name → LibName) (files : List (String × FileEntry)) (dir : String) (fa m : Nat) : Prop :=
+  ∀ (c path : List Name) (st : State) (x : Name) (loc : Loc), Corr g nm ⟨c, path⟩ st → st.files = files ∧ st.dir = dir →
     (dfs fa g c path x).1 ≠ .fuel →
     ∃ r st', evalImportSet m st (.direct (nm x) loc) = (r, st') ∧
-      Match g nm files (dfs fa g c path x).1 r ∧ Corr g nm ⟨(dfs fa g c path x).2, path⟩ st' ∧
-      st'.files = files
+      Match g nm files dir (dfs fa g c path x).1 r ∧ Corr g nm ⟨(dfs fa g c path x).2, path⟩ st' ∧
+      st'.files = files ∧ st'.dir = dir
 
-theorem match_ok_iff {g nm files o r} (h : Match g nm files o r) (ho : o = .ok) : r = .ok [] := by
+theorem match_ok_iff {g nm files dir o r} (h : Match g nm files dir o r) (ho : o = .ok) : r = .ok [] := by
   subst ho; exact h
 
-theorem match_err {g nm files o r} (h : Match g nm files o r) (ho : o ≠ .ok) :
-    ∃ e, r = .error e ∧ MatchErr g nm files o e := by
+theorem match_err {g nm files dir o r} (h : Match g nm files dir o r) (ho : o ≠ .ok) :
+    ∃ e, r = .error e ∧ MatchErr g nm files dir o e := by
   cases o <;> first | exact absurd rfl ho | exact h
 
-theorem match_of_err {g nm files o e} (h : MatchErr g nm files o e) (ho : o ≠ .ok) :
-    Match g nm files o (.error e) := by
+theorem match_of_err {g nm files dir o e} (h : MatchErr g nm files dir o e) (ho : o ≠ .ok) :
+    Match g nm files dir o (.error e) := by
   cases o <;> first | exact absurd rfl ho | exact ⟨e, rfl, h⟩
 
-theorem depsSim {g : Graph} {nm : Name → LibName} {files : List (String × FileEntry)} {fa M : Nat}
-    (hS : ∀ m, M ≤ m → SimAt g nm files fa m) (path : List Name) :
+theorem depsSim {g : Graph} {nm : Name → LibName} {files : List (String × FileEntry)} {dir : String} {fa M : Nat}
+    (hS : ∀ m, M ≤ m → SimAt g nm files dir fa m) (path : List Name) :
     ∀ (deps : List Name) (k : Nat) (c : List Name) (st : State), M + deps.length + 1 ≤ k →
-    Corr g nm ⟨c, path⟩ st → st.files = files →
+    Corr g nm ⟨c, path⟩ st → st.files = files ∧ st.dir = dir →
     (dfsDeps (fun c d => dfs fa g c path d) c deps).1 ≠ .fuel →
     ∃ r st', evalImportSets k st (depSets nm deps) [] = (r, st') ∧
-      Match g nm files (dfsDeps (fun c d => dfs fa g c path d) c deps).1 r ∧
-      Corr g nm ⟨(dfsDeps (fun c d => dfs fa g c path d) c deps).2, path⟩ st' ∧ st'.files = files := by
+      Match g nm files dir (dfsDeps (fun c d => dfs fa g c path d) c deps).1 r ∧
+      Corr g nm ⟨(dfsDeps (fun c d => dfs fa g c path d) c deps).2, path⟩ st' ∧ st'.files = files ∧ st'.dir = dir := by
   intro deps
   induction deps with
   | nil =>
@@ -311,18 +312,18 @@ theorem sourceKind_faulty (nm : Name → LibName) (deps : List Name) (x : Name) 
    fun _ _ he => finishFaulty_err he, .inr ⟨rfl, rfl⟩⟩
 
 /-- a node with a source factory -/
-theorem sim_source {g : Graph} {nm : Name → LibName} {files : List (String × FileEntry)} {fa D : Nat}
-    (hS : ∀ m, modelFuel D fa ≤ m → SimAt g nm files fa m)
+theorem sim_source {g : Graph} {nm : Name → LibName} {files : List (String × FileEntry)} {dir : String} {fa D : Nat}
+    (hS : ∀ m, modelFuel D fa ≤ m → SimAt g nm files dir fa m)
     {c path : List Name} {st : State} {x : Name} {loc : Loc} {deps : List Name} {decls : List LibDecl}
     {finish : Outcome × List Name → Outcome × List Name} (hk : SourceKind nm deps decls finish x)
-    (hc : Corr g nm ⟨c, path⟩ st) (hf : st.files = files) (hx : x ∉ path) (hxc : x ∉ c)
+    (hc : Corr g nm ⟨c, path⟩ st) (hf : st.files = files ∧ st.dir = dir) (hx : x ∉ path) (hxc : x ∉ c)
     (hlen : deps.length ≤ D) {m : Nat} (hm : modelFuel D fa + D + 10 ≤ m)
     (hfac : factoryFor st (nm x) = some (.ast decls))
     (hne : (finish (dfsDeps (fun c d => dfs fa g c (x :: path) d) c deps)).1 ≠ .fuel) :
     ∃ r st', evalImportSet m st (.direct (nm x) loc) = (r, st') ∧
-      Match g nm files (finish (dfsDeps (fun c d => dfs fa g c (x :: path) d) c deps)).1 r ∧
+      Match g nm files dir (finish (dfsDeps (fun c d => dfs fa g c (x :: path) d) c deps)).1 r ∧
       Corr g nm ⟨(finish (dfsDeps (fun c d => dfs fa g c (x :: path) d) c deps)).2, path⟩ st' ∧
-      st'.files = files := by
+      st'.files = files ∧ st'.dir = dir := by
   obtain ⟨j, rfl⟩ : ∃ j, m = j + 8 := ⟨m - 8, by omega⟩
   have hip : nm x ∉ st.inProgress := fun h => hx ((mem_ip_iff hc x).1 h)
   have hc1 := hc.push x
@@ -334,7 +335,7 @@ theorem sim_source {g : Graph} {nm : Name → LibName} {files : List (String × 
   obtain ⟨st1, hs1, hsame1, hfac1, hget⟩ := getLibrary_of_factoryFor (k := j + 6) (loc := loc) hi1
     (show factoryFor { st with inProgress := nm x :: st.inProgress } (nm x) = some (.ast decls) from hfac)
   have hc1' : Corr g nm ⟨c, x :: path⟩ st1 := hc1.step hs1 (by rw [hsame1])
-  have hf1 : st1.files = files := by rw [hs1.base.files]; exact hf
+  have hf1 : st1.files = files ∧ st1.dir = dir := ⟨by rw [hs1.base.files]; exact hf.1, by rw [hs1.base.dir]; exact hf.2⟩
   have hc0 := hc1'.store (st1.store.newFrame none).2
   -- the dependencies
   have hne' : (dfsDeps (fun c d => dfs fa g c (x :: path) d) c deps).1 ≠ .fuel := by
@@ -381,9 +382,9 @@ theorem sim_source {g : Graph} {nm : Name → LibName} {files : List (String × 
 
 /-- THE SIMULATION: with `fa * (D + 10)` fuel or more the model's import of `(nm x)` has the
 outcome the abstract traversal has with fuel `fa`, and the states correspond again afterwards. -/
-theorem simAt {g : Graph} {nm : Name → LibName} {files : List (String × FileEntry)} {D : Nat}
+theorem simAt {g : Graph} {nm : Name → LibName} {files : List (String × FileEntry)} {dir : String} {D : Nat}
     (hD : ∀ x, (g.node x).deps.length ≤ D) :
-    ∀ (fa m : Nat), modelFuel D fa ≤ m → SimAt g nm files fa m := by
+    ∀ (fa m : Nat), modelFuel D fa ≤ m → SimAt g nm files dir fa m := by
   intro fa
   induction fa with
   | zero => intro m _ c path st x loc _ _ hne; exact absurd rfl hne
@@ -427,7 +428,7 @@ theorem simAt {g : Graph} {nm : Name → LibName} {files : List (String × FileE
             (getLibrary_no_factory (st := { st with inProgress := nm x :: st.inProgress }) hi0 h1).2 h2]
         | malformed =>
           obtain ⟨h1, t, e, h2, h3⟩ := hc.desc.malformed x hn
-          refine ⟨.error e, st, ?_, ⟨_, rfl, x, t, hn, by rw [← hf]; exact h2, h3⟩, hc, hf⟩
+          refine ⟨.error e, st, ?_, ⟨_, rfl, x, t, hn, by rw [← hf.1, ← hf.2]; exact h2, h3⟩, hc, hf⟩
           rw [evalImportSet_direct_eq hip,
             getLibrary_file_error (st := { st with inProgress := nm x :: st.inProgress }) hi0 h1 h2 h3]
         | healthy deps =>
